@@ -171,4 +171,18 @@ CLAIMS["C02"] = {
     "note": "Trusts: the textbook theorem for the schema; unique ids; the comparator is a strict partial order with verdicts {0,1,2} (C01).",
 }
 
+CLAIMS["C09"] = {
+    "category": "other",
+    "technique": "affine tag algebra over the generation loop; abstract interpretation of the offspring-list length relative to N (finite length classes, fixpoint over the while loop); evaluate-site counting and ordering over enumerated paths; decision table of pop_acceptance",
+    "text": "Decides, for NSGA-II, EpsMOEA, OMOPSO and SMPSO: the generation tags are exactly {1..G} resp. {0..G} (literal initial tag + affine "
+            "tag over the loop range, for-range and counter-while idioms); generate() can only return exactly N offspring for every N>=2 "
+            "(fixpoint over the length classes 0, 1..N-2, N-1, N, >N); the copy selector returns one copy per member; each run evaluates "
+            "the initial batch once and exactly one offspring batch per generation on every path, NSGA-II adding the parent copies only "
+            "after that evaluate - hence N*G resp. N*(G+1) evaluations; survivors are tagged and recorded once each; the NSGA-II pool is N "
+            "offspring plus a copy of every parent carrying costs and signed costs, sorted then truncated to N (with C03/C02/C01 this "
+            "gives generational elitism); and pop_acceptance follows the size-preserving table of the property. Distinctness of the 2N "
+            "pool and the no-regression corollary as a run-time fact are not decided.",
+    "note": "Trusts: each evaluate of N fresh designs costs N successful objective calls (C05/C06); N>=2, G>=1; user-supplied generators return N vectors.",
+}
+
 NOT_APPLICABLE = {}
